@@ -12,3 +12,43 @@ package file
 
 //@ func (*file.shardNodeFile).linkSize
 //@ requires 0 <= position
+
+// ---------------------------------------------------------------------------------------------
+// C04: readers obey the io.ReadSeeker model. Machine arithmetic: offsets are required to stay
+// below 2^62 in magnitude (listed as an arithmetic assumption).
+
+//@ func (*file.singleNodeFile).AsLargeBytes
+//@ ensures err == nil && result != nil && fresh(result) && typeis(result, "*file.singleNodeReader")
+//@ ensures result.(*file.singleNodeReader).offset == 0 && result.(*file.singleNodeReader).Node == f
+//@ assigns nothing
+
+//@ func (*file.singleNodeReader).Seek
+//@ requires -(1 << 62) < offset && offset < (1 << 62)
+//@ ensures load-error: nodeBytesErr(f.Node) != nil ==> err != nil && f.offset == old(f.offset)
+//@ ensures negative-target-is-error: nodeBytesErr(f.Node) == nil && seekTarget(whence, offset, old(f.offset), len(nodeBytes(f.Node))) < 0 ==> err != nil && f.offset == old(f.offset)
+//@ ensures lands-on-target: nodeBytesErr(f.Node) == nil && seekTarget(whence, offset, old(f.offset), len(nodeBytes(f.Node))) >= 0 ==> err == nil && result == seekTarget(whence, offset, old(f.offset), len(nodeBytes(f.Node))) && f.offset == result
+//@ assigns f.offset
+
+//@ func (*file.singleNodeReader).Read
+//@ requires no-alias: base(p) != base(nodeBytes(f.Node))
+//@ ensures load-error: nodeBytesErr(f.Node) != nil ==> result == 0 && err != nil && f.offset == old(f.offset)
+//@ ensures eof-at-or-past-end: nodeBytesErr(f.Node) == nil && old(f.offset) >= len(nodeBytes(f.Node)) ==> result == 0 && err == io.EOF && f.offset == old(f.offset)
+//@ ensures count: nodeBytesErr(f.Node) == nil && old(f.offset) < len(nodeBytes(f.Node)) ==> err == nil && result == min64(len(p), len(nodeBytes(f.Node)) - old(f.offset)) && f.offset == old(f.offset) + result
+//@ ensures content: nodeBytesErr(f.Node) == nil ==> (forall i int :: 0 <= i && i < result ==> p[i] == nodeBytes(f.Node)[old(f.offset) + i])
+//@ assigns f.offset, mem(p)
+
+//@ func (*file.shardNodeFile).AsLargeBytes
+//@ ensures err == nil && result != nil && fresh(result) && typeis(result, "*file.shardNodeReader")
+//@ ensures result.(*file.shardNodeReader).offset == 0 && result.(*file.shardNodeReader).rdr == nil && result.(*file.shardNodeReader).shardNodeFile == s
+//@ assigns nothing
+
+//@ func (*file.shardNodeFile).length
+//@ trusted
+//@ ensures result == flen(s)
+//@ assigns file.shardNodeFile.metadata, file.shardNodeFile.unpackLk
+
+//@ func (*file.shardNodeReader).Seek
+//@ requires -(1 << 62) < offset && offset < (1 << 62) && -(1 << 62) < s.offset && s.offset < (1 << 62) && -(1 << 62) < flen(s.shardNodeFile) && flen(s.shardNodeFile) < (1 << 62)
+//@ ensures negative-target-is-error: seekTarget(whence, offset, old(s.offset), flen(s.shardNodeFile)) < 0 ==> err != nil && s.offset == old(s.offset) && s.rdr == old(s.rdr)
+//@ ensures lands-on-target: seekTarget(whence, offset, old(s.offset), flen(s.shardNodeFile)) >= 0 ==> err == nil && result == seekTarget(whence, offset, old(s.offset), flen(s.shardNodeFile)) && s.offset == result && s.rdr == nil
+//@ assigns s.offset, s.rdr, file.shardNodeFile.metadata, file.shardNodeFile.unpackLk
